@@ -8,6 +8,7 @@
 -/
 import OrxPar.Lemmas.Terminals
 import OrxPar.Lemmas.Logged
+import OrxPar.Lemmas.Select
 namespace OrxPar
 open K
 
@@ -133,5 +134,25 @@ example :
       (.reduce fun a b => a - b) = .opt (some 5) := by
   rw [C09_seq_value _ _ _ (by rfl) _ (by rfl)]
   rfl
+
+/-- **C09 (ties of the by-key selections).** the value `reduce` computes with the library's
+    `max_by` / `max_by_key` operator is the LAST of the maximal elements, and with its `min_by` /
+    `min_by_key` operator the FIRST of the minimal ones — what `Iterator::max_by(_key)` and
+    `Iterator::min_by(_key)` are documented to return (since `fix:` commit dec7df0; before it the
+    maximum was the first maximal element) -/
+theorem C09_max_by_key_is_the_last_maximum (key : Val → Nat) (xs : List Val) (hne : xs ≠ []) :
+    ∃ pre r post, xs = pre ++ r :: post ∧ K.reduceList (selMaxBy key) xs = some r ∧
+      (∀ y ∈ pre, key y ≤ key r) ∧ (∀ y ∈ post, key y < key r) :=
+  reduce_selMax_last key xs hne
+
+theorem C09_min_by_key_is_the_first_minimum (key : Val → Nat) (xs : List Val) (hne : xs ≠ []) :
+    ∃ pre r post, xs = pre ++ r :: post ∧ K.reduceList (selMinBy key) xs = some r ∧
+      (∀ y ∈ pre, key r < key y) ∧ (∀ y ∈ post, key r ≤ key y) :=
+  reduce_selMin_first key xs hne
+
+/-- the defect the fix repairs, on three jobs of priority 3, 1, 3: the old operator
+    (`Greater | Equal => x`) selects the first one, std and the repaired operator the last -/
+example : K.reduceList (selMaxBy (· / 10)) [30, 10, 31] = some 31 ∧
+    K.reduceList (fun x y => if x / 10 ≥ y / 10 then x else y) [30, 10, 31] = some 30 := by decide
 
 end OrxPar
